@@ -16,6 +16,7 @@
 -/
 import Curtsies.Model.KeysGen
 import Curtsies.Proofs.Keys
+import Curtsies.Proofs.KeysLoop
 namespace Curtsies
 open Spec.Utf8
 
@@ -358,3 +359,150 @@ example : getKey genTables [27, 91, 49] .utf8 .curtsies false = .ok none ∧
     getKey genTables [0xE2, 0x82] .utf8 .curtsies true = .ok none ∧ wellFormedSoFar [0xE2, 0x82] := by
   refine ⟨by decide +kernel, by decide +kernel, ?_⟩
   simp [wellFormedSoFar, isCont]
+
+/-! ### (5) never fails on recognised input - outside known finding D12 -/
+
+/-- FULL statement: on input made of recognised sequences and validly encoded characters (`Recognised`, byte-level,
+    Proofs/KeysLoop.lean: utf-8 = valid characters optionally ended by one single-byte key; ascii = ASCII and
+    single-byte keys; latin-1 = any bytes) decoding the whole buffer never fails.
+    It is FALSE for the code as it is (`C03_D12_witness`): known finding D12. -/
+def C03_never_fails_full_statement : Prop :=
+  ∀ (enc : Enc) (mode : KeyMode) (buf : List Nat), Recognised genTables enc buf →
+    ∃ ps, segment genTables enc mode buf.length buf = .ok ps
+
+/-- What is proved: the full statement with the one extra hypothesis `noD12` - nowhere in the buffer is a
+    KEYMAP_PREFIXES member followed by a byte >= 0x80 (needed under utf-8 and ascii only) - which is exactly the
+    complement of D12's footprint. For arbitrary tables satisfying `WF`, any fuel >= the buffer length.
+    Missing relative to the full statement: the D12 region itself (where the code does fail). -/
+theorem C03_never_fails_partial (T : KeyTables) (hT : T.WF) (enc : Enc) (mode : KeyMode) (n : Nat) :
+    ∀ buf : List Nat, buf.length ≤ n → Recognised T enc buf → (enc = .latin1 ∨ noD12 T buf) →
+    ∃ ps, segment T enc mode n buf = .ok ps := by
+  induction n with
+  | zero =>
+    intro buf hl _ _
+    have : buf = [] := List.eq_nil_of_length_eq_zero (by omega)
+    subst this; exact ⟨[], rfl⟩
+  | succ n ih =>
+    intro buf hl hrec hno
+    cases buf with
+    | nil => exact ⟨[], rfl⟩
+    | cons b bs =>
+      obtain ⟨k, c, r, hf, hr⟩ := findKey_recognised hT enc mode (b :: bs) (by simp) hrec hno
+      obtain ⟨h1, h2⟩ := C03_lossless T enc mode _ k c r hf
+      have hlen : r.length ≤ n := by
+        have : (c ++ r).length = (b :: bs).length := by rw [h1]
+        have hc : 0 < c.length := List.length_pos_iff.mpr h2
+        simp at this hl; omega
+      obtain ⟨ps, hps⟩ := ih r hlen hr (hno.imp id (fun h => noD12_suffix (c := c) (by rw [h1]; exact h)))
+      exact ⟨(k, c) :: ps, by simp [segment, hf, hps]⟩
+
+/-- `C03_never_fails_partial` for the regenerated tables and the fuel the driver uses. -/
+theorem C03_never_fails_generated (enc : Enc) (mode : KeyMode) (buf : List Nat)
+    (hrec : Recognised genTables enc buf) (hno : enc = .latin1 ∨ noD12 genTables buf) :
+    ∃ ps, segment genTables enc mode buf.length buf = .ok ps :=
+  C03_never_fails_partial genTables genTables_wf enc mode buf.length buf (Nat.le_refl _) hrec hno
+
+/-- Known finding D12, witnessed on the model (and replayed on the real code by the harness on every run):
+    ESC (a key and a KEYMAP_PREFIXES member) followed by the 8-bit key 0xFF (<Meta-BACKSPACE>) is recognised
+    input, and decoding it fails with UnicodeDecodeError under utf-8 and ascii, in `get_key` itself. So the full
+    statement is false. -/
+theorem C03_D12_witness :
+    genTables.isKey [0x1b] = true ∧ genTables.isKey [0xff] = true ∧ [0x1b] ∈ genTables.prefixes ∧
+    getKey genTables [0x1b, 0xff] .utf8 .curtsies false = .error .unicodeDecodeError ∧
+    getKey genTables [0x1b, 0xff] .ascii .curtsies false = .error .unicodeDecodeError ∧
+    getKey genTables [0x1b, 0xff] .utf8 .curtsies true = .error .unicodeDecodeError ∧
+    findKey genTables .utf8 .curtsies [0x1b, 0xc3, 0xa9] = .error .unicodeDecodeError ∧
+    ¬ C03_never_fails_full_statement := by
+  have hk : genTables.isKey [0xff] = true := by decide +kernel
+  refine ⟨by decide +kernel, hk, by decide +kernel, by decide +kernel, by decide +kernel, by decide +kernel,
+    by decide +kernel, ?_⟩
+  intro h
+  have hrec : Recognised genTables .utf8 ([0x1b] ++ [0xff]) :=
+    RecUtf8.char [0x1b] [0xff] (.one 0x1b (by omega)) (.last 0xff hk)
+  obtain ⟨ps, hps⟩ := h .utf8 .curtsies _ hrec
+  have : segment genTables .utf8 .curtsies 2 [0x1b, 0xff] = .error .unicodeDecodeError := by decide +kernel
+  simp at hps
+  rw [this] at hps
+  cases hps
+
+/-- Non-vacuity of `C03_never_fails_partial`: `ESC [ A`, U+00E9 and a final 0xFF form recognised input with no
+    KEYMAP_PREFIXES member followed by a byte >= 0x80 ... -/
+example : Recognised genTables .utf8 ([27] ++ ([91] ++ ([65] ++ ([0xC3, 0xA9] ++ [0xFF])))) :=
+  .char _ _ (.one _ (by omega)) (.char _ _ (.one _ (by omega)) (.char _ _ (.one _ (by omega))
+    (.char _ _ (.two _ _ (by omega) (by omega) (by decide)) (.last _ (by decide +kernel)))))
+/-- ... and decodes to <UP>, U+00E9, <Meta-BACKSPACE>. -/
+example : segment genTables .utf8 .curtsies 6 [27, 91, 65, 0xC3, 0xA9, 0xFF] =
+    .ok [(.text (cpsOf "<UP>"), [27, 91, 65]), (.text [0xE9], [0xC3, 0xA9]), (.text (cpsOf "<Meta-BACKSPACE>"), [0xFF])] := by
+  decide +kernel
+
+/-! ### units: what "input made of recognised sequences and validly encoded characters" means -/
+
+/-- one unit of "input made of recognised escape sequences and validly encoded characters": a table sequence or
+    one valid character; under utf-8 a single-byte 8-bit table key is not a unit here (it may only END the
+    input: `final` in `C03_units_recognised`) -/
+def isUnit (T : KeyTables) : Enc → List Nat → Prop
+  | .utf8, u => (T.isKey u = true ∧ ∀ b, u = [b] → b < 128) ∨ Shape u
+  | .ascii, u => T.isKey u = true ∨ ∃ b, u = [b] ∧ b < 128
+  | .latin1, u => T.isKey u = true ∨ ∃ b, u = [b] ∧ b < 256
+
+theorem recUtf8_ascii_append {T : KeyTables} (a r : List Nat) (ha : ∀ b ∈ a, b < 128) (hr : RecUtf8 T r) :
+    RecUtf8 T (a ++ r) := by
+  induction a with
+  | nil => simpa using hr
+  | cons x xs ih =>
+    exact .char [x] (xs ++ r) (.one x (ha x (by simp))) (ih (fun b hb => ha b (by simp [hb])))
+
+/-- Concatenations of units are `Recognised` (so `C03_never_fails_partial` speaks about exactly the inputs the
+    property names). -/
+theorem C03_units_recognised (T : KeyTables) (hT : T.WF) (enc : Enc) (units : List (List Nat)) (final : List Nat)
+    (hu : ∀ u ∈ units, isUnit T enc u)
+    (hf : final = [] ∨ (enc = .utf8 ∧ ∃ b, final = [b] ∧ T.isKey [b] = true)) :
+    Recognised T enc (units.flatten ++ final) := by
+  cases enc with
+  | utf8 =>
+    simp only [Recognised]
+    induction units with
+    | nil =>
+      rcases hf with rfl | ⟨_, b, rfl, hb⟩
+      · exact .nil
+      · exact .last b hb
+    | cons u us ih =>
+      have ih := ih (fun v hv => hu v (by simp [hv]))
+      simp only [List.flatten_cons, List.append_assoc]
+      rcases hu u (by simp) with ⟨hk, h1⟩ | hs
+      · apply recUtf8_ascii_append _ _ _ ih
+        obtain ⟨hne, _, _, hm⟩ := isKey_entry hT hk
+        by_cases h2 : 2 ≤ u.length
+        · exact (hm h2).2
+        · match u, hne, h2, h1 with
+          | [b], _, _, h1 => intro x hx; simp at hx; subst hx; exact h1 x rfl
+          | _ :: _ :: _, _, h2, _ => simp at h2
+      · exact .char u _ hs ih
+  | ascii =>
+    have hfin : final = [] := by rcases hf with h | ⟨h, _⟩; exact h; cases h
+    subst hfin
+    simp only [Recognised, List.append_nil, List.mem_flatten]
+    rintro b ⟨u, hu', hb⟩
+    rcases hu u hu' with hk | ⟨b', rfl, hb'⟩
+    · obtain ⟨hne, _, _, hm⟩ := isKey_entry hT hk
+      by_cases h2 : 2 ≤ u.length
+      · exact Or.inl ((hm h2).2 b hb)
+      · match u, hne, h2, hk, hb with
+        | [x], _, _, hk, hb => simp at hb; subst hb; exact Or.inr hk
+        | _ :: _ :: _, _, h2, _, _ => simp at h2
+    · simp at hb; subst hb; exact Or.inl hb'
+  | latin1 =>
+    have hfin : final = [] := by rcases hf with h | ⟨h, _⟩; exact h; cases h
+    subst hfin
+    simp only [Recognised, List.append_nil, List.mem_flatten]
+    rintro b ⟨u, hu', hb⟩
+    rcases hu u hu' with hk | ⟨b', rfl, hb'⟩
+    · exact (isKey_entry hT hk).2.1 b hb
+    · simp at hb; subst hb; exact hb'
+
+/-- Non-vacuity: F5 and the character U+20AC are units. -/
+example : isUnit genTables .utf8 [27, 91, 49, 53, 126] ∧ isUnit genTables .utf8 [0xE2, 0x82, 0xAC] := by
+  refine ⟨Or.inl ⟨by decide +kernel, by intro b h; cases h⟩, Or.inr ?_⟩
+  exact .three _ _ _ (by omega) (by omega) (by decide) (by decide) (by omega) (by omega)
+
+end Curtsies
